@@ -171,7 +171,7 @@ def check_visit_seq(ctx, cfg):
         ok = built[0].term["dest"]["l"] in dropped
         ctx.ob("C17.D", "%s#%s#bb%d" % (K_VIS, c.fn, n), ok, "builder dropped on the unwind path of %s: %s" % (c.fn, ok), at=c.at, cfg=cfg, frozen=False)
         n += 1
-    ctx.floor("C17.D", "fallible calls with the builder live (%s)" % cfg, n, 5)
+    ctx.floor("C17.D", "fallible calls with the builder live (%s)" % cfg, n, 1)
     # `?` early returns: every from_residual (error return) after the builder exists drops it on the way out
     for i, c in enumerate([c for c in a.calls if c.fn == "core::ops::FromResidual::from_residual"]):
         built = [m for m in a.calls if m.key == "IntrusiveArrayBuilder<$0,$1>::new"]
